@@ -12,7 +12,7 @@ FN_RE = re.compile(r"^fn (.+?)\((.*)\) -> (.+) \{$")
 FN_UNIT_RE = re.compile(r"^fn (.+?)\((.*)\) \{$")
 CONST_RE = re.compile(r"^const (.+): (.+?) = \{$")
 CONST1_RE = re.compile(r"^const (.+?): (.+?) = (const .+);$")
-LET_RE = re.compile(r"^    let (?:mut )?(_\d+): (.+);$")
+LET_RE = re.compile(r"^\s+let (?:mut )?(_\d+): (.+);$")
 BB_RE = re.compile(r"^    (bb\d+)( \(cleanup\))?: \{$")
 
 
